@@ -30,6 +30,7 @@ fn main() {
     vcore::set_quick_scale(8);
     match id.as_str() {
         "C33" => opcheck::c33(&mut ctx),
+        "C22" => opcheck::c22_op(&mut ctx),
         _ => {
             eprintln!("unknown property {id} for vcheck-op");
             std::process::exit(2);
